@@ -196,6 +196,35 @@ def inprocess_tree(job):
                 d = realflow.diff_snapshots(ref, realflow.snapshot(out + "-second"))
             if d:
                 bad.append((cfg, f"tree '{name}': output differs when generated into a {config} directory / second run: {d[:4]}"))
+        # how the caller SPELLS the two directories is an environment answer too: relative to the working directory,
+        # ".", with "./" and "../" components - the output must be the same files
+        base = os.path.basename(work)
+        spellings = [
+            ("input '.'", in_dir, ".", os.path.join(work, "s")),
+            ("input 'xml', output 's'", work, "xml", "s"),
+            ("input './xml'", work, "./xml", os.path.join(work, "s")),
+            (f"input '../{base}/xml'", work, f"../{base}/xml", "./s"),
+            ("output '.'", os.path.join(work, "s"), in_dir, "."),
+            ("input 'xml/' from the parent's parent", os.path.dirname(work), f"{base}/xml/", f"{base}/s"),
+        ]
+        for label, cwd, in_spelled, out_spelled in spellings:
+            out = os.path.join(work, "s")
+            shutil.rmtree(out, ignore_errors=True)
+            os.makedirs(out if out_spelled == "." else work, exist_ok=True)
+            old_cwd = os.getcwd()
+            try:
+                os.chdir(cwd)
+                err, _ = generate_with(in_spelled, out_spelled)
+            finally:
+                os.chdir(old_cwd)
+            runs += 1
+            cfg = {"tree": name, "config": "spelling:" + label}
+            if err is not None:
+                bad.append((cfg, f"tree '{name}' with {label} (cwd {cwd.replace(work, '<work>')}): generator failed: {type(err).__name__}: {err}"))
+                continue
+            d = realflow.diff_snapshots(ref, realflow.snapshot(out))
+            if d:
+                bad.append((cfg, f"tree '{name}': output differs when the directories are given as {label}: {d[:4]}"))
         return name, runs, bad
     finally:
         shutil.rmtree(work, ignore_errors=True)
